@@ -506,8 +506,10 @@ def io_faults(rep, wd, rng, quick):
                     # (name the sources: an output name that is a directory would be a directory input)
                     ins = inputs if inputs == ["."] else ["r.txt.txtpp", "s.txt.txtpp"]
                     add(sources() + [dict(path=f"p/{at}.txt/inside", text="x")], [run_step(mode, via, ins)], "output-is-directory", at, mode, via, "err")
-                # output is a symlink to /dev/full: writes fail with ENOSPC (build streams to the file)
-                for bigout in (False, True):
+                # output is a symlink to /dev/full: writes fail with ENOSPC (build streams to the file). Only for files nobody
+                # includes: reading /dev/full never ends, and a defect that lets the build of an included file "succeed"
+                # would make the includer read it until the process is killed for memory
+                for bigout in ((False, True) if at in ("r", "s") else ()):
                     add(sources(bigout=bigout) + [dict(path=f"p/{at}.txt", symlink="/dev/full")], [run_step("build", via, inputs)],
                         "output->/dev/full" + ("(>8KiB)" if bigout else ""), at, "build", via, "err")
                 # tampered / missing output in verify
